@@ -4,6 +4,7 @@ import (
 	"go/types"
 	"fmt"
 	"go/token"
+	"sort"
 	"strings"
 
 	"golang.org/x/tools/go/ssa"
@@ -2740,4 +2741,820 @@ func init() {
 	registerExtra("C09", func(c *Ctx, r *Report) {
 		r.WithAlias(map[string]string{"C03-R1": "C09-R10"}, func() { checkC03(c, r) })
 	})
+}
+
+// ---------- C12-R10: the translated request is forwarded as the translator produced it ----------
+func init() { registerExtra("C12", extraC12NoPostEdit) }
+
+func extraC12NoPostEdit(c *Ctx, r *Report) {
+	r.Rule("C12-R10", "outside the translator packages, the map TransformedRequest.OpenAIRequest is only read (serialised, looked up, compared): no map update, delete, clear or maps.Copy/Insert into it, here or in a repo function it is handed to — the handler's own notion of the model (lower-cased and trimmed by the body inspector for routing) or of any other field is not what the client sent", 1)
+	const tpkg = "internal/adapter/translator"
+	var mutated func(v ssa.Value, seen map[ssa.Value]bool, depth int) (token.Pos, string)
+	mutated = func(v ssa.Value, seen map[ssa.Value]bool, depth int) (token.Pos, string) {
+		if seen[v] || depth == 0 {
+			return token.NoPos, ""
+		}
+		seen[v] = true
+		refs := v.Referrers()
+		if refs == nil {
+			return token.NoPos, ""
+		}
+		for _, ref := range *refs {
+			switch x := ref.(type) {
+			case *ssa.MapUpdate:
+				if x.Map == v {
+					return x.Pos(), "map update"
+				}
+			case *ssa.Phi, *ssa.ChangeType, *ssa.MakeInterface:
+				if p, w := mutated(x.(ssa.Value), seen, depth); w != "" {
+					return p, w
+				}
+			case *ssa.Store:
+				// parked in a variable / field: follow loads of that address
+				if x.Val == v {
+					if p, w := mutated(x.Addr, seen, depth); w != "" {
+						return p, w
+					}
+				}
+			case *ssa.UnOp:
+				if x.Op == token.MUL {
+					if p, w := mutated(x, seen, depth); w != "" {
+						return p, w
+					}
+				}
+			case ssa.CallInstruction:
+				cc := x.Common()
+				if b, ok := cc.Value.(*ssa.Builtin); ok {
+					if (b.Name() == "delete" || b.Name() == "clear") && len(cc.Args) > 0 && cc.Args[0] == v {
+						return x.Pos(), b.Name()
+					}
+					continue
+				}
+				ci := describeCall(cc)
+				if ci.Pkg == "maps" && (ci.Name == "Copy" || ci.Name == "Insert" || ci.Name == "DeleteFunc") && len(cc.Args) > 0 && cc.Args[0] == v {
+					return x.Pos(), "maps." + ci.Name
+				}
+				sc := cc.StaticCallee()
+				if sc == nil || sc.Blocks == nil || !strings.HasPrefix(fnPkgPath(sc), modPath) {
+					continue
+				}
+				for i, a := range cc.Args {
+					if a == v && i < len(sc.Params) {
+						if p, w := mutated(sc.Params[i], seen, depth-1); w != "" {
+							return p, w
+						}
+					}
+				}
+			}
+		}
+		return token.NoPos, ""
+	}
+	n := 0
+	for _, f := range c.Funcs {
+		if strings.Contains(fnPkgPath(f), tpkg) {
+			continue
+		}
+		eachInstr(f, func(in ssa.Instruction) {
+			v, ok := in.(ssa.Value)
+			if !ok {
+				return
+			}
+			switch in.(type) {
+			case *ssa.FieldAddr, *ssa.Field:
+			default:
+				return
+			}
+			if !isField(v, tpkg, "TransformedRequest", "OpenAIRequest") {
+				return
+			}
+			n++
+			key := fmt.Sprintf("%s:translated-request-read-only", fname(f))
+			if _, isAddr := in.(*ssa.FieldAddr); isAddr {
+				// a store of another map into the field replaces the translator's output altogether
+				for _, ref := range *v.Referrers() {
+					if st, ok := ref.(*ssa.Store); ok && st.Addr == v {
+						r.Bad("C12-R10", key, st.Pos(), "the translated request map is replaced after translation: what is sent upstream is not the translator's output")
+						return
+					}
+				}
+			}
+			if p, w := mutated(v, map[ssa.Value]bool{}, 3); w != "" {
+				r.Bad("C12-R10", key, p, "the translated request is edited after translation ("+w+"): the upstream request no longer carries what the translator derived from the client's request")
+				return
+			}
+			r.OK("C12-R10", key, in.Pos(), "the translator's output is only read here")
+		})
+	}
+	if n == 0 {
+		r.Undecided("C12-R10", "translated-request-read", token.NoPos, "no read of TransformedRequest.OpenAIRequest outside the translator found")
+	}
+	addMutants(Mutant{Prop: "C12", Name: "handler-overwrites-model", File: "internal/app/handlers/handler_translation.go", Rule: "C12-R10",
+		Old: "	// Serialize OpenAI request\n", New: "	if pr.model != \"\" && transformedReq.OpenAIRequest != nil {\n		transformedReq.OpenAIRequest[\"model\"] = pr.model\n	}\n	// Serialize OpenAI request\n"})
+}
+
+// ---------- C13-R9 / C20-R12: payload slicing on the response translation paths is bounds-checked ----------
+func init() {
+	registerExtra("C13", extraC13PayloadSlices)
+	registerExtra("C20", func(c *Ctx, r *Report) {
+		r.WithAlias(map[string]string{"C13-R9": "C20-R12"}, func() { extraC13PayloadSlices(c, r) })
+	})
+}
+
+func isLenOf(v, x ssa.Value) bool {
+	call, ok := stripConv(v).(*ssa.Call)
+	if !ok {
+		return false
+	}
+	bi, ok := call.Call.Value.(*ssa.Builtin)
+	return ok && bi.Name() == "len" && len(call.Call.Args) == 1 && (sameValue(call.Call.Args[0], x) || sameValue(stripSameLen(call.Call.Args[0]), stripSameLen(x)))
+}
+
+// stripSameLen removes conversions that keep the length: type changes and string<->[]byte (not string->[]rune).
+func stripSameLen(v ssa.Value) ssa.Value {
+	for {
+		switch x := v.(type) {
+		case *ssa.ChangeType:
+			v = x.X
+		case *ssa.Convert:
+			if !byteSeq(x.Type()) || !byteSeq(x.X.Type()) {
+				return v
+			}
+			v = x.X
+		default:
+			return v
+		}
+	}
+}
+
+func byteSeq(t types.Type) bool {
+	switch u := t.Underlying().(type) {
+	case *types.Basic:
+		return u.Info()&types.IsString != 0
+	case *types.Slice:
+		b, ok := u.Elem().Underlying().(*types.Basic)
+		return ok && b.Kind() == types.Byte
+	}
+	return false
+}
+
+// sliceBoundProven: the bound of x[..] is known to lie within [0, len(x)]: it is len(x), a min(...) with len(x), an
+// Index-family result on x that was tested against a constant, or some dominating fact relates it to len(x).
+func sliceBoundProven(bound, x ssa.Value, b *ssa.BasicBlock, depth int) string {
+	if bound == nil {
+		return "absent"
+	}
+	if depth == 0 {
+		return ""
+	}
+	if k, ok := constInt(bound); ok {
+		if k == 0 {
+			return "zero"
+		}
+		if mk, ok := stripConv(x).(*ssa.MakeSlice); ok {
+			if l, ok := constInt(mk.Len); ok && l >= k {
+				return "constant within the constant make() length"
+			}
+		}
+		// make([]T, K) with constant K is lowered to a full slice of a fresh [K]T
+		if sl, ok := stripConv(x).(*ssa.Slice); ok && sl.Low == nil {
+			if pt, ok := sl.X.Type().Underlying().(*types.Pointer); ok {
+				if at, ok := pt.Elem().Underlying().(*types.Array); ok {
+					l := at.Len()
+					if sl.High != nil {
+						if h, ok := constInt(sl.High); ok {
+							l = h
+						} else {
+							l = -1
+						}
+					}
+					if l >= k {
+						return "constant within the fixed length of the backing array"
+					}
+				}
+			}
+		}
+		// a constant bound needs len(x) >= k: some dominating fact compares len(x) with a constant
+		for _, cf := range normFacts(condFacts(b)) {
+			if bo, ok := cf.Cond.(*ssa.BinOp); ok {
+				if (isLenOf(bo.X, x) && isConstInt(bo.Y)) || (isLenOf(bo.Y, x) && isConstInt(bo.X)) {
+					return "constant under a length test"
+				}
+			}
+		}
+		return ""
+	}
+	if isLenOf(bound, x) {
+		return "len(x)"
+	}
+	switch v := stripConv(bound).(type) {
+	case *ssa.Call:
+		if bi, ok := v.Call.Value.(*ssa.Builtin); ok && bi.Name() == "min" {
+			for _, a := range v.Call.Args {
+				if isLenOf(a, x) {
+					return "min(.., len(x))"
+				}
+			}
+		}
+		ci := describeCall(&v.Call)
+		if (ci.Pkg == "strings" || ci.Pkg == "bytes") && strings.Contains(ci.Name, "Index") && len(v.Call.Args) > 0 && sameValue(stripSameLen(v.Call.Args[0]), stripSameLen(x)) {
+			for _, cf := range normFacts(condFacts(b)) {
+				if bo, ok := cf.Cond.(*ssa.BinOp); ok && (sameValue(bo.X, bound) || sameValue(bo.Y, bound)) {
+					return "Index result on x, tested"
+				}
+			}
+		}
+	case *ssa.BinOp:
+		// idx + k where idx is an Index result on x (k = len of the separator found there)
+		if v.Op == token.ADD || v.Op == token.SUB {
+			if w := sliceBoundProven(v.X, x, b, depth-1); w != "" && w != "absent" && w != "zero" {
+				if _, isK := constInt(v.Y); isK || v.Op == token.SUB {
+					if strings.HasPrefix(w, "Index") || v.Op == token.SUB {
+						return w + " ± offset"
+					}
+				}
+			}
+		}
+	case *ssa.Phi:
+		all := "phi"
+		for _, e := range v.Edges {
+			if sliceBoundProven(e, x, b, depth-1) == "" {
+				all = ""
+			}
+		}
+		if all != "" {
+			return "phi of proven bounds"
+		}
+	}
+	for _, cf := range normFacts(condFacts(b)) {
+		bo, ok := cf.Cond.(*ssa.BinOp)
+		if !ok {
+			continue
+		}
+		if (sameValue(stripConv(bo.X), stripConv(bound)) && isLenOf(bo.Y, x)) || (sameValue(stripConv(bo.Y), stripConv(bound)) && isLenOf(bo.X, x)) {
+			return "compared with len(x) on the way here"
+		}
+	}
+	return ""
+}
+
+func isConstInt(v ssa.Value) bool { _, ok := constInt(v); return ok }
+
+func extraC13PayloadSlices(c *Ctx, r *Report) {
+	r.Rule("C13-R9", "in every repo function reachable from the translator's TransformResponse / TransformStreamingResponse (helpers in other packages included), a slice expression on a string or byte slice whose bound is not a constant 0 is provably within the operand: the bound is len(x), min(.., len(x)), a tested Index result on x, or control-dependent on a comparison with len(x) — a malformed or truncated chunk of any length must not panic the stream (nor make the buffered translation of the same completion fail where the streamed one succeeds)", 1)
+	var entries []*ssa.Function
+	for _, n := range []string{"(*Translator).TransformResponse", "(*Translator).TransformStreamingResponse"} {
+		if f := c.Fn(pkgAnthropic, n); f != nil {
+			entries = append(entries, f)
+		} else {
+			r.Unresolved("C13-R9", n)
+		}
+	}
+	seen := map[*ssa.Function]bool{}
+	var visit func(f *ssa.Function)
+	visit = func(f *ssa.Function) {
+		if f == nil || seen[f] || f.Blocks == nil || !c.inRepo(f) {
+			return
+		}
+		seen[f] = true
+		for _, g := range withAnon(f) {
+			seen[g] = true
+			eachInstr(g, func(in ssa.Instruction) {
+				if cc := getCall(in); cc != nil {
+					if sc := cc.StaticCallee(); sc != nil {
+						visit(topParent(sc))
+					}
+				}
+			})
+		}
+	}
+	for _, e := range entries {
+		visit(e)
+	}
+	n := 0
+	var fs []*ssa.Function
+	for f := range seen {
+		fs = append(fs, f)
+	}
+	sort.Slice(fs, func(i, j int) bool { return fname(fs[i]) < fname(fs[j]) })
+	for _, f := range fs {
+		idx := 0
+		eachInstr(f, func(in ssa.Instruction) {
+			sl, ok := in.(*ssa.Slice)
+			if !ok {
+				return
+			}
+			switch t := sl.X.Type().Underlying().(type) {
+			case *types.Basic:
+			case *types.Slice:
+				_ = t
+			default:
+				return // arrays: C20-R11
+			}
+			if sl.Low == nil && sl.High == nil {
+				return
+			}
+			idx++
+			n++
+			key := fmt.Sprintf("%s:slice#%d", fname(f), idx)
+			lo := sliceBoundProven(sl.Low, sl.X, in.Block(), 4)
+			hi := sliceBoundProven(sl.High, sl.X, in.Block(), 4)
+			// x[lo:] with lo proven needs nothing more; x[:hi] likewise; x[lo:hi] additionally needs lo <= hi, which the
+			// accepted forms (Index results, length tests) imply for the shapes in this code base
+			if lo != "" && hi != "" {
+				r.OK("C13-R9", key, in.Pos(), "bounds proven: low "+lo+", high "+hi)
+			} else {
+				which := "high"
+				if lo == "" {
+					which = "low"
+				}
+				r.Bad("C13-R9", key, in.Pos(), "the "+which+" bound of this slice expression is not provably within the operand: a payload of the wrong length panics the translation (streamed: the stream dies without message_stop; buffered: the translation fails where the streamed one would succeed)")
+			}
+		})
+	}
+	r.Extra["response_path_functions"] = len(fs)
+	addMutants(Mutant{Prop: "C13", Name: "truncate-compares-bytes-slices-runes", File: "internal/util/parsing.go", Rule: "C13-R9",
+		Old: "	if len(runes) <= maxLength {", New: "	if len(s) <= maxLength {"})
+	if n == 0 {
+		r.Undecided("C13-R9", "payload-slices", token.NoPos, "no slice expression found on the response translation paths")
+	}
+}
+
+// ---------- C13-R10: the buffered translation hands the backend's text on unmodified ----------
+func init() { registerExtra("C13", extraC13TextVerbatim) }
+
+// freshSlice: the slice value was created in this function (make, append to nil/fresh, slice of a fresh array) and
+// therefore shares no backing array with a caller's value.
+func freshSlice(v ssa.Value, depth int) bool {
+	if depth == 0 || v == nil {
+		return false
+	}
+	switch x := v.(type) {
+	case *ssa.MakeSlice:
+		return true
+	case *ssa.Const:
+		return x.IsNil()
+	case *ssa.Slice:
+		if a, ok := x.X.(*ssa.Alloc); ok {
+			_, isArr := deref(a.Type()).Underlying().(*types.Array)
+			return isArr
+		}
+		return freshSlice(x.X, depth-1)
+	case *ssa.Phi:
+		for _, e := range x.Edges {
+			if !freshSlice(e, depth-1) {
+				return false
+			}
+		}
+		return true
+	case *ssa.Call:
+		if b, ok := x.Call.Value.(*ssa.Builtin); ok && b.Name() == "append" {
+			return freshSlice(x.Call.Args[0], depth-1)
+		}
+		ci := describeCall(&x.Call)
+		if ci.Pkg == "slices" && ci.Name == "Clone" {
+			return true
+		}
+	case *ssa.UnOp:
+		if x.Op != token.MUL {
+			return false
+		}
+		// a local variable / a field of a local struct: every value stored there is fresh
+		var stores []*ssa.Store
+		switch a := x.X.(type) {
+		case *ssa.Alloc:
+			for _, ref := range *a.Referrers() {
+				if st, ok := ref.(*ssa.Store); ok && st.Addr == ssa.Value(a) {
+					stores = append(stores, st)
+				}
+			}
+		case *ssa.FieldAddr:
+			base, ok := a.X.(*ssa.Alloc)
+			if !ok {
+				return false
+			}
+			for _, ref := range *base.Referrers() {
+				if fa, ok := ref.(*ssa.FieldAddr); ok && fa.Field == a.Field {
+					for _, r2 := range *fa.Referrers() {
+						if st, ok := r2.(*ssa.Store); ok && st.Addr == ssa.Value(fa) {
+							stores = append(stores, st)
+						}
+					}
+				}
+			}
+		default:
+			return false
+		}
+		if len(stores) == 0 {
+			return false
+		}
+		for _, st := range stores {
+			if !freshSlice(st.Val, depth-1) {
+				return false
+			}
+		}
+		return true
+	}
+	return false
+}
+
+func extraC13TextVerbatim(c *Ctx, r *Report) {
+	r.Rule("C13-R10", "on the buffered response path (functions reachable from TransformResponse) every store to ContentBlock.Text either writes the decoded backend string as it is (a string type assertion, a load of a Text field, a constant, concatenations of these) or writes into a block of a slice created in the same function: a shortened or rewritten text stored into a block that is shared with the response being returned changes what the client receives (and the streamed translation of the same completion still delivers all of it)", 1)
+	entry := c.Fn(pkgAnthropic, "(*Translator).TransformResponse")
+	if entry == nil {
+		r.Unresolved("C13-R10", "(*Translator).TransformResponse")
+		return
+	}
+	seen := map[*ssa.Function]bool{}
+	var visit func(f *ssa.Function)
+	visit = func(f *ssa.Function) {
+		if f == nil || seen[f] || f.Blocks == nil || !c.inRepo(f) {
+			return
+		}
+		seen[f] = true
+		for _, g := range withAnon(f) {
+			seen[g] = true
+			eachInstr(g, func(in ssa.Instruction) {
+				if cc := getCall(in); cc != nil {
+					if sc := cc.StaticCallee(); sc != nil {
+						visit(topParent(sc))
+					}
+				}
+			})
+		}
+	}
+	visit(entry)
+	var verbatim func(v ssa.Value, depth int) bool
+	verbatim = func(v ssa.Value, depth int) bool {
+		if depth == 0 {
+			return false
+		}
+		switch x := v.(type) {
+		case *ssa.Const:
+			return true
+		case *ssa.TypeAssert:
+			return true
+		case *ssa.Extract:
+			if ta, ok := x.Tuple.(*ssa.TypeAssert); ok {
+				return ta != nil
+			}
+			if lk, ok := x.Tuple.(*ssa.Lookup); ok {
+				return lk != nil
+			}
+			return false
+		case *ssa.Lookup:
+			return true
+		case *ssa.Phi:
+			for _, e := range x.Edges {
+				if !verbatim(e, depth-1) {
+					return false
+				}
+			}
+			return true
+		case *ssa.BinOp:
+			return x.Op == token.ADD && verbatim(x.X, depth-1) && verbatim(x.Y, depth-1)
+		case *ssa.UnOp:
+			if x.Op == token.MUL {
+				switch a := x.X.(type) {
+				case *ssa.FieldAddr:
+					_, f, _ := fieldOf(a)
+					return f.Type().Underlying() == types.Typ[types.String]
+				case *ssa.Alloc:
+					for _, ref := range *a.Referrers() {
+						if st, ok := ref.(*ssa.Store); ok && st.Addr == ssa.Value(a) && !verbatim(st.Val, depth-1) {
+							return false
+						}
+					}
+					return true
+				}
+			}
+		case *ssa.Field:
+			return true
+		case *ssa.Parameter:
+			return true // decided at the call sites' own stores
+		case *ssa.ChangeType:
+			return verbatim(x.X, depth-1)
+		}
+		return false
+	}
+	n := 0
+	var fs []*ssa.Function
+	for f := range seen {
+		fs = append(fs, f)
+	}
+	sort.Slice(fs, func(i, j int) bool { return fname(fs[i]) < fname(fs[j]) })
+	for _, f := range fs {
+		idx := 0
+		eachInstr(f, func(in ssa.Instruction) {
+			st, ok := in.(*ssa.Store)
+			if !ok {
+				return
+			}
+			fa, ok := st.Addr.(*ssa.FieldAddr)
+			if !ok || !isField(fa, pkgAnthropic, "ContentBlock", "Text") {
+				return
+			}
+			idx++
+			n++
+			key := fmt.Sprintf("%s:text-store#%d", fname(f), idx)
+			if verbatim(st.Val, 6) {
+				r.OK("C13-R10", key, in.Pos(), "the stored text is the decoded string itself (no call result)")
+				return
+			}
+			// a rewritten text: acceptable only in a block that belongs to this function alone
+			switch base := fa.X.(type) {
+			case *ssa.Alloc:
+				r.OK("C13-R10", key, in.Pos(), "rewritten text goes into a block allocated here")
+				return
+			case *ssa.IndexAddr:
+				if freshSlice(base.X, 6) {
+					r.OK("C13-R10", key, in.Pos(), "rewritten text goes into an element of a slice created in this function")
+					return
+				}
+			}
+			r.Bad("C13-R10", key, in.Pos(), "a rewritten (call-derived) text is stored into a content block that is shared with the caller's response: the buffered translation no longer carries the backend's text, while the streamed one does")
+		})
+	}
+	if n == 0 {
+		r.Undecided("C13-R10", "text-stores", token.NoPos, "no store to ContentBlock.Text on the buffered response path")
+	}
+	addMutants(Mutant{Prop: "C13", Name: "inspector-trim-in-place", File: "internal/adapter/translator/anthropic/response.go", Rule: "C13-R10",
+		Old: "		if respBytes, err := json.Marshal(anthropicResp); err == nil {",
+		New: "		for i := range anthropicResp.Content {\n			anthropicResp.Content[i].Text = util.TruncateString(anthropicResp.Content[i].Text, 4096)\n		}\n		if respBytes, err := json.Marshal(anthropicResp); err == nil {"})
+}
+
+// ---------- C14-R9: nothing removes the mode header from the client's response ----------
+func init() { registerExtra("C14", extraC14ModeHeaderSurvives) }
+
+func extraC14ModeHeaderSurvives(c *Ctx, r *Report) {
+	r.Rule("C14-R9", "the X-Olla-Mode header is stamped once by the handler before the proxy runs and nothing restores it afterwards, so no repo code may remove it: every deletion from a header map obtained from a ResponseWriter's Header() (Header.Del, delete, clear, maps.DeleteFunc — directly or in a helper the map is handed to) names a constant header other than X-Olla-Mode; a deletion whose name is computed (a prefix sweep over the response headers before a retry, say) can take the mode header away from a passthrough response served by the second native endpoint", 1)
+	callers := map[*ssa.Function][]*ssa.CallCommon{}
+	for _, g := range c.Funcs {
+		eachInstr(g, func(in ssa.Instruction) {
+			if cc := getCall(in); cc != nil {
+				if sc := cc.StaticCallee(); sc != nil {
+					callers[sc] = append(callers[sc], cc)
+				}
+			}
+		})
+	}
+	var fromRespHeader func(v ssa.Value, depth int) bool
+	fromRespHeader = func(v ssa.Value, depth int) bool {
+		if depth == 0 || v == nil {
+			return false
+		}
+		switch x := v.(type) {
+		case *ssa.Call:
+			cc := &x.Call
+			name := ""
+			if cc.IsInvoke() {
+				name = cc.Method.Name()
+			} else if sc := cc.StaticCallee(); sc != nil && sc.Signature.Recv() != nil {
+				name = sc.Name()
+			}
+			return name == "Header" && isNamed(x.Type(), "net/http", "Header")
+		case *ssa.Phi:
+			for _, e := range x.Edges {
+				if fromRespHeader(e, depth-1) {
+					return true
+				}
+			}
+		case *ssa.ChangeType:
+			return fromRespHeader(x.X, depth-1)
+		case *ssa.UnOp:
+			if a, ok := x.X.(*ssa.Alloc); ok && x.Op == token.MUL {
+				for _, ref := range *a.Referrers() {
+					if st, ok := ref.(*ssa.Store); ok && st.Addr == ssa.Value(a) && fromRespHeader(st.Val, depth-1) {
+						return true
+					}
+				}
+			}
+		case *ssa.Parameter:
+			f := x.Parent()
+			for i, p := range f.Params {
+				if p != x {
+					continue
+				}
+				for _, cc := range callers[f] {
+					if i < len(cc.Args) && fromRespHeader(cc.Args[i], depth-1) {
+						return true
+					}
+				}
+			}
+		case *ssa.FreeVar:
+			f := x.Parent()
+			for i, fv := range f.FreeVars {
+				if fv != x || f.Parent() == nil {
+					continue
+				}
+				found := false
+				eachInstr(f.Parent(), func(in ssa.Instruction) {
+					if mc, ok := in.(*ssa.MakeClosure); ok && mc.Fn == f && i < len(mc.Bindings) && fromRespHeader(mc.Bindings[i], depth-1) {
+						found = true
+					}
+				})
+				return found
+			}
+		}
+		return false
+	}
+	modeName := "X-Olla-Mode"
+	nDel, nSet := 0, 0
+	for _, f := range c.Funcs {
+		if !c.inRepo(f) {
+			continue
+		}
+		eachInstr(f, func(in ssa.Instruction) {
+			cc := getCall(in)
+			if cc == nil {
+				return
+			}
+			var hdr, name ssa.Value
+			what := ""
+			if b, ok := cc.Value.(*ssa.Builtin); ok {
+				switch b.Name() {
+				case "delete":
+					hdr, name, what = cc.Args[0], cc.Args[1], "delete"
+				case "clear":
+					hdr, what = cc.Args[0], "clear"
+				}
+			} else if !cc.IsInvoke() {
+				ci := describeCall(cc)
+				switch {
+				case ci.Pkg == "net/http" && ci.Recv == "Header" && ci.Name == "Del" && len(cc.Args) == 2:
+					hdr, name, what = cc.Args[0], cc.Args[1], "Header.Del"
+				case ci.Pkg == "maps" && ci.Name == "DeleteFunc" && len(cc.Args) > 0:
+					hdr, what = cc.Args[0], "maps.DeleteFunc"
+				case ci.Pkg == "net/http" && ci.Recv == "Header" && ci.Name == "Set" && len(cc.Args) == 3:
+					if k, ok := constString(cc.Args[1]); ok && k == modeName && fromRespHeader(cc.Args[0], 5) {
+						nSet++
+					}
+					return
+				}
+			}
+			if what == "" || !fromRespHeader(hdr, 5) {
+				return
+			}
+			nDel++
+			key := fmt.Sprintf("%s:response-header-%s", fname(f), what)
+			if name != nil {
+				if k, ok := constString(name); ok && !strings.EqualFold(k, modeName) {
+					r.OK("C14-R9", key+":"+k, in.Pos(), "removes the constant header "+k+" only")
+					return
+				}
+			}
+			r.Bad("C14-R9", key, in.Pos(), "response headers are removed under a computed name (or wholesale, or X-Olla-Mode by name): the mode header stamped by the handler before the proxy ran can disappear from the response, and no attempt stamps it again")
+		})
+	}
+	if nSet == 0 {
+		r.Undecided("C14-R9", "mode-header-stamp", token.NoPos, "no Header().Set(X-Olla-Mode, …) on a response writer found")
+	} else {
+		r.OK("C14-R9", "mode-header-survives", token.NoPos, fmt.Sprintf("%d stamp site(s) of X-Olla-Mode; %d deletion(s) from response header maps analysed, none can remove it", nSet, nDel))
+	}
+	r.Extra["response_header_deletions"] = nDel
+	addMutants(Mutant{Prop: "C14", Name: "retry-sweeps-olla-headers", File: "internal/adapter/proxy/core/retry.go", Rule: "C14-R9",
+		Old: "		h.resetRequestBodyForRetry(r, bodyBytes, attemptCount)\n",
+		New: "		h.resetRequestBodyForRetry(r, bodyBytes, attemptCount)\n		if attemptCount > 0 {\n			for name := range tracked.Header() {\n				if len(name) > 7 && name[:7] == \"X-Olla-\" {\n					tracked.Header().Del(name)\n				}\n			}\n		}\n"})
+}
+
+// ---------- C14-R10: every profile is decoded into a value of its own ----------
+func init() { registerExtra("C14", extraC14ProfileDecodeFresh) }
+
+func isRefType(t types.Type) bool {
+	switch t.Underlying().(type) {
+	case *types.Pointer, *types.Map, *types.Slice, *types.Interface, *types.Chan:
+		return true
+	}
+	return false
+}
+
+// storesReference: some instruction of f (closures included) stores a non-nil reference-typed value into a struct field.
+func storesReference(f *ssa.Function) bool {
+	found := false
+	for _, g := range withAnon(f) {
+		eachInstr(g, func(in ssa.Instruction) {
+			if st, ok := in.(*ssa.Store); ok {
+				if _, isFA := st.Addr.(*ssa.FieldAddr); isFA && isRefType(st.Val.Type()) && !isNilConst(st.Val) {
+					found = true
+				}
+			}
+		})
+	}
+	return found
+}
+
+// globalHoldsReferences: the package-level variable g (a struct value) can carry a non-nil pointer/map/slice in one of
+// its fields: a shallow copy of it shares that referent with every other copy.
+func globalHoldsReferences(c *Ctx, g *ssa.Global) bool {
+	var rootsAt func(v ssa.Value, depth int) bool
+	rootsAt = func(v ssa.Value, depth int) bool {
+		if depth == 0 {
+			return false
+		}
+		switch x := v.(type) {
+		case *ssa.Global:
+			return x == g
+		case *ssa.FieldAddr:
+			return rootsAt(x.X, depth-1)
+		case *ssa.IndexAddr:
+			return rootsAt(x.X, depth-1)
+		}
+		return false
+	}
+	holds := false
+	for _, f := range c.Funcs {
+		if holds {
+			break
+		}
+		eachInstr(f, func(in ssa.Instruction) {
+			st, ok := in.(*ssa.Store)
+			if !ok || !rootsAt(st.Addr, 6) {
+				return
+			}
+			if st.Addr != ssa.Value(g) {
+				if isRefType(st.Val.Type()) && !isNilConst(st.Val) {
+					holds = true
+				}
+				return
+			}
+			// whole-value store: where does the value come from?
+			switch v := st.Val.(type) {
+			case *ssa.Const:
+			case *ssa.Call:
+				sc := v.Call.StaticCallee()
+				if sc == nil || sc.Blocks == nil || storesReference(sc) {
+					holds = true
+				}
+			default:
+				if storesReference(f) {
+					holds = true
+				}
+			}
+		})
+	}
+	return holds
+}
+
+func extraC14ProfileDecodeFresh(c *Ctx, r *Report) {
+	r.Rule("C14-R10", "a backend profile (domain.ProfileConfig) is decoded into a value of its own: the decode target is a local that starts zeroed, or starts from a value that carries no pointers, maps or slices; a target initialised by copying a package-level template that holds a non-nil reference (an anthropic_support block, say) makes every profile share that one block — the decoder writes through the shared pointer, so `enabled: true` of a native profile declares native support for every profile without such a block", 1)
+	n := 0
+	for _, f := range c.Funcs {
+		if !c.inRepo(f) {
+			continue
+		}
+		eachInstr(f, func(in ssa.Instruction) {
+			cc := getCall(in)
+			if cc == nil {
+				return
+			}
+			ci := describeCall(cc)
+			isDecode := (ci.Name == "Unmarshal" || ci.Name == "Decode" || ci.Name == "UnmarshalStrict") && (strings.Contains(ci.Pkg, "yaml") || strings.Contains(ci.Pkg, "json"))
+			if !isDecode || len(cc.Args) == 0 {
+				return
+			}
+			tgt := cc.Args[len(cc.Args)-1]
+			if mi, ok := tgt.(*ssa.MakeInterface); ok {
+				tgt = mi.X
+			}
+			if !isNamed(tgt.Type(), "internal/core/domain", "ProfileConfig") {
+				return
+			}
+			n++
+			key := fmt.Sprintf("%s:profile-decode-target", fname(f))
+			al, ok := tgt.(*ssa.Alloc)
+			if !ok {
+				r.Bad("C14-R10", key, in.Pos(), "the profile is decoded into a value this function did not allocate (a shared or caller-provided ProfileConfig): blocks of one profile can leak into another")
+				return
+			}
+			bad := ""
+			for _, ref := range *al.Referrers() {
+				st, ok := ref.(*ssa.Store)
+				if !ok || st.Addr != ssa.Value(al) || !instrDominates(st, in) {
+					continue
+				}
+				if ld, ok := st.Val.(*ssa.UnOp); ok && ld.Op == token.MUL {
+					if g, ok := ld.X.(*ssa.Global); ok {
+						if globalHoldsReferences(c, g) {
+							bad = "the decode target starts as a shallow copy of the package-level value " + g.Name() + ", which holds a non-nil reference: every profile decoded this way shares (and writes through) that referent"
+						}
+						continue
+					}
+					if _, isFA := ld.X.(*ssa.FieldAddr); isFA {
+						bad = "the decode target starts as a shallow copy of a long-lived struct field: reference-typed blocks are shared between profiles"
+					}
+				}
+			}
+			if bad != "" {
+				r.Bad("C14-R10", key, in.Pos(), bad)
+			} else {
+				r.OK("C14-R10", key, in.Pos(), "decoded into a local that shares no referent with other profiles")
+			}
+		})
+	}
+	if n == 0 {
+		r.Undecided("C14-R10", "profile-decode", token.NoPos, "no decode into domain.ProfileConfig found")
+	}
+	addMutants(Mutant{Prop: "C14", Name: "profile-decoded-over-shared-template", File: "internal/adapter/registry/profile/loader.go", Rule: "C14-R10",
+		Old: "	var config domain.ProfileConfig\n	if err := yaml.Unmarshal(data, &config); err != nil {",
+		New: "	config := sharedProfileTemplate\n	if err := yaml.Unmarshal(data, &config); err != nil {",
+		Edits: []Edit{{"internal/adapter/registry/profile/loader.go", "func needsCustomParser(name string) bool {", "var sharedProfileTemplate = func() domain.ProfileConfig {\n	var d domain.ProfileConfig\n	d.API.AnthropicSupport = &domain.AnthropicSupportConfig{MessagesPath: \"/v1/messages\"}\n	return d\n}()\n\nfunc needsCustomParser(name string) bool {"}}})
 }
